@@ -47,8 +47,12 @@ RULES = {
     "R11": "the clone has attribute objects of its own: `Cloner.clone_attr` never returns the attribute it was given - an Attr is mutable "
     "(`name`, `doc_string`, `meta`, and the Shape inside the TypeAndShape of a TYPE_PROTO attribute), so an Attr object that sits in "
     "the attribute sets of both the original and the clone carries every later edit of one copy over to the other",
+    "R12": "the clone's inputs are the original's, position by position: where the cloner maps `<node>.inputs`, nothing is left out - a "
+    "comprehension over the inputs has no condition, and a loop over them has no `continue` (an omitted optional input is carried over as "
+    "None): dropping the None of `Resize(x, <no roi>, scales)` shifts every later input one slot to the left, so the clone serializes "
+    "differently from the original and means another computation",
 }
-FLOORS = {"R1": 26, "R2": 30, "R3": 2, "R4": 1, "R5": 2, "R6": 1, "R7": 7, "R8": 1, "R9": 3, "R10": 5, "R11": 2}
+FLOORS = {"R1": 26, "R2": 30, "R3": 2, "R4": 1, "R5": 2, "R6": 1, "R7": 7, "R8": 1, "R9": 3, "R10": 5, "R11": 2, "R12": 1}
 EXPLANATION = (
     "A sharing analysis over the cloner and the clone() methods: each data flow original.field → clone is classified "
     "by the mutability of the field's declared class (computed from the source: setters, __setitem__, self-stores) "
@@ -850,9 +854,45 @@ def rule_r11(ctx):
     ctx.require(n >= 2, f"only {n} return statements found in Cloner.clone_attr")
 
 
+def rule_r12(ctx):
+    n = 0
+    for f in ctx.repo.live(ctx.repo.module("onnx_ir._cloner").all_funcs):
+        if isinstance(f.node, ast.Lambda):
+            continue
+        for x in own_nodes(f.node):
+            if isinstance(x, ast.comprehension) and isinstance(x.iter, ast.Attribute) and x.iter.attr == "inputs":
+                n += 1
+                ctx.check("R12", f"{f.local}: the comprehension over `{norm(x.iter)}` keeps every position", not x.ifs, f, x.ifs[0] if x.ifs else x.iter,
+                          f"`for … in {norm(x.iter)} if {norm(x.ifs[0]) if x.ifs else ''}` leaves inputs out: an omitted optional input (None) disappears from the clone and every "
+                          "later input moves one position to the left - the clone no longer serializes like the original",
+                          how="comprehensions / loops over <node>.inputs in the cloner: no condition, no continue", construct="inputs filtered while cloning")
+            elif isinstance(x, ast.For) and isinstance(x.iter, ast.Attribute) and x.iter.attr == "inputs":
+                n += 1
+                skips = [y for y in ast.walk(x) if isinstance(y, ast.Continue)]
+
+                def always_appends(stmts) -> bool:
+                    for st in stmts:
+                        if isinstance(st, ast.Expr) and isinstance(st.value, ast.Call) and isinstance(st.value.func, ast.Attribute) and st.value.func.attr in ("append", "add"):
+                            return True
+                        if isinstance(st, ast.Raise):
+                            return True
+                        if isinstance(st, ast.If) and st.orelse and always_appends(st.body) and always_appends(st.orelse):
+                            return True
+                    return False
+
+                collects = any(isinstance(y, ast.Call) and isinstance(y.func, ast.Attribute) and y.func.attr == "append" for y in ast.walk(x))
+                if collects and not always_appends(x.body) and not skips:
+                    skips = [x]
+                ctx.check("R12", f"{f.local}: the loop over `{norm(x.iter)}` keeps every position", not skips, f, skips[0] if skips else x,
+                          f"the loop over `{norm(x.iter)}` skips some inputs (`continue`): an omitted optional input disappears from the clone and the later inputs shift",
+                          how="comprehensions / loops over <node>.inputs in the cloner: no condition, no continue", construct="inputs filtered while cloning")
+    ctx.require(n >= 1, "no loop over <node>.inputs found in the cloner")
+
+
 def run(ctx):
     from . import c03, c18
 
+    rule_r12(ctx)
     rule_r11(ctx)
     rule_r10(ctx)
 
